@@ -173,6 +173,9 @@ func start1(o StartOpts) (*Session, error) {
 	var sb strings.Builder
 	sb.WriteString("#!/bin/sh\n")
 	fmt.Fprintf(&sb, "D=%s\n", shq(dir))
+	// the wrapper must survive a ctrl-c typed while fzf is not (or no longer) in raw mode,
+	// so that the exit status is always recorded (a trap handler is not inherited by fzf)
+	sb.WriteString("trap : INT QUIT\n")
 	sb.WriteString("while [ ! -f \"$D/go\" ]; do sleep 0.01; done\n")
 	fmt.Fprintf(&sb, "cd %s\n", shq(cwd))
 	sb.WriteString("unset TMUX TMUX_PANE FZF_DEFAULT_OPTS FZF_DEFAULT_OPTS_FILE FZF_DEFAULT_COMMAND FZF_API_KEY\n")
